@@ -206,14 +206,14 @@ Proof.
 Qed.
 Print Assumptions C14_scan_no_miss_refuted.
 
-(* F8b.  'start: A B | X "!"', ignored COMMENT: /x[a-z]*/ and " " ; text "xab ab" ;
+(* F28.  'start: A B | X "!"', ignored COMMENT: /x[a-z]*/ and " " ; text "xab ab" ;
    terminals A=0 B=1 BANG=2 COMMENT=3 X=4 SPACE=5.
    H_stable holds, H_head does not: the search stops at 0 (X matches there) but the lexer prefers the ignored
    COMMENT, skips "xab " and the turn reports (4,6); the candidates at 1..3 are never tried although "ab" at
    (1,3) parses. *)
-Definition f8b_tables : tables :=
+Definition f28_tables : tables :=
   (mkTables 0 6 [] [0; 1; 4] [(0, [(mkTok 3 0 3 true); (mkTok 5 3 4 true); (mkTok 0 4 5 false); (mkTok 1 5 6 false)]); (1, [(mkTok 0 1 2 false); (mkTok 1 2 3 false); (mkTok 5 3 4 true)]); (4, [(mkTok 0 4 5 false); (mkTok 1 5 6 false)])] [([0], (true, false, false)); ([0; 1], (true, true, true))]).
-Definition f8b_snips : list (nat * nat * list tok) :=
+Definition f28_snips : list (nat * nat * list tok) :=
   [(0, 1, []); (0, 2, []); (0, 3, []); (0, 4, []); (0, 5, [(mkTok 0 4 5 false)]); (0, 6, [(mkTok 0 4 5 false); (mkTok 1 5 6 false)]); (1, 2, [(mkTok 0 1 2 false)]); (1, 3, [(mkTok 0 1 2 false); (mkTok 1 2 3 false)]); (1, 4, [(mkTok 0 1 2 false); (mkTok 1 2 3 false)]); (3, 4, []); (3, 5, [(mkTok 0 4 5 false)]); (3, 6, [(mkTok 0 4 5 false); (mkTok 1 5 6 false)]); (4, 5, [(mkTok 0 4 5 false)]); (4, 6, [(mkTok 0 4 5 false); (mkTok 1 5 6 false)])].
 
 Theorem C14_scan_no_miss_head_refuted :
@@ -225,7 +225,7 @@ Theorem C14_scan_no_miss_head_refuted :
     map (fun m => (fst (fst m), snd (fst m))) (tb_scan T) = [(4, 6)] /\
     tb_parse_snip T snips 1 3 = Some [mkTok 0 1 2 false; mkTok 1 2 3 false] /\ b_no_miss T snips = false.
 Proof.
-  exists f8b_tables, f8b_snips. split.
+  exists f28_tables, f28_snips. split.
   - intros m. do 5 (destruct m as [|m]; [cbn; repeat split; lia|]). cbn. exact I.
   - vm_compute. repeat split; reflexivity.
 Qed.
